@@ -80,8 +80,13 @@
    * (3) PROGRESS without exemption: `target_legal_table` (`rowOKB`), `target_legal_quant` (`rowQOKB`; `nextConst_fresh`:
      the model's `Branch.new_constant()` is strictly above every constant of the branch; well-formed quantified sentences),
      `target_legal_ident`, `search_progress`.  `templatesOKB`, `templatesQOKB`, `closureMonoB` hold for all 57 logics.
-   * NOT done: `search_terminates_prop` for logics with access rules (`C03_terminates_partial` itself excludes frame steps; a
-     measure bounding them is missing).
+   * SEVENTH INCREMENT, termination with access rules (Ptx/Proofs/SearchTermF.lean, `C03_terminates_partial` untouched):
+     `search_terminates_prop_frames` — propositional argument, access rules among Reflexive / Transitive / Symmetric: every run
+     has at most `termBound + 1 + termBound · maxBranching` applications and never a quit flag (access-rule steps leave the C03
+     measure unchanged — `frame_step_measure` — and are counted through the access nodes: one world, one pair per branch, each
+     target adds a pair that is not on the branch — `frame_target_fresh`, `frame_step_J`); `search_terminates_prop_nonframe` —
+     EVERY logic, D included: the applications other than access-rule steps are ≤ `termBound`, no quit flag.  Serial steps are
+     not bounded by this argument (each introduces a new world; only `_last_serial_world` and the world limit stop them).
    Examples use a hand-built logic (`miniS`), so a broken generated logic cannot break this file.
 -/
 import Ptx.Proofs.SearchInv
@@ -93,6 +98,7 @@ import Ptx.Proofs.SearchQ
 import Ptx.Proofs.SearchTerm
 import Ptx.Proofs.SearchQStep
 import Ptx.Proofs.SearchLegalT
+import Ptx.Proofs.SearchTermF
 namespace Ptx.Props.Search
 open Ptx Ptx.Search
 
@@ -142,6 +148,33 @@ theorem search_run_replayFresh (L : LogicData) (W : Weights) (hfr : L.frameRules
     (arg : Argument) (hp : arg.isProp = true) (n : Nat) (s : SState) (h : ReachN L arg n s) :
     ∃ sts : List Step, sts.length = n ∧ replayFresh L (trunk L arg) sts = some s.tab :=
   reachN_replayFresh hfr hm hrows hp h
+
+/-- (4-F) TERMINATION on propositional arguments in logics WITH access rules, Serial excluded (T, S4, S5 and their many-valued
+    relatives; K and the non-modal logics trivially): under EVERY schedule the number of rule applications is at most
+    `termBound + 1 + termBound · maxBranching`, and no branch ever carries a quit flag.  Access-rule steps are invisible to the C03
+    measure (an access node has potential 0) and are counted separately: on a propositional argument every world is world 0, so a
+    branch carries at most the one access pair (0,0); a Reflexive / Transitive / Symmetric target adds a pair that is NOT yet on
+    the branch (`WorldIndex` = the access nodes), hence #access-rule steps ≤ Σ_branches #access nodes ≤ #branches ≤ 1 + nT·maxBranching. -/
+theorem search_terminates_prop_frames (L : LogicData) (W : Weights) (hser : L.frameAllowed .serial = false)
+    (hm : L.measureOKOnB RuleKey.isTF W = true) (hrows : L.tfRowsOKB = true)
+    (arg : Argument) (hp : arg.isProp = true) (n : Nat) (s : SState) (h : ReachN L arg n s) :
+    n ≤ termBound L W arg + (1 + termBound L W arg * L.maxBranching) ∧ s.tab.noQuit := by
+  obtain ⟨nT, nF, he, hr⟩ := reachN_split h
+  obtain ⟨h1, h2, h3⟩ := reachTF_bound hm hrows hser hp hr
+  exact ⟨by omega, h3⟩
+
+/-- (4-D) the precise statement for EVERY logic, Serial (D) included: the applications OTHER THAN access-rule steps are at most
+    `termBound`, the tableau stays propositional and no quit flag appears.  Serial steps themselves are not bounded by this
+    argument: each one introduces a new world, and what stops them in the code (and in the model) is `_last_serial_world` — the
+    rule does not serve the world its own last application on the branch introduced — together with the world limit `MaxWorlds`
+    (`frameTargets` is empty beyond it, without a quit flag: known finding k2); a bound on Serial steps would have to go through
+    `exceeded`, i.e. through the limit the property excludes. -/
+theorem search_terminates_prop_nonframe (L : LogicData) (W : Weights)
+    (hm : L.measureOKOnB RuleKey.isTF W = true) (hrows : L.tfRowsOKB = true)
+    (arg : Argument) (hp : arg.isProp = true) (nT nF : Nat) (s : SState) (h : ReachTF L arg nT nF s) :
+    nT ≤ termBound L W arg ∧ s.tab.allProp ∧ s.tab.noQuit := by
+  obtain ⟨h1, h2, h3⟩ := reachTF_measure (W := W) hm hrows hp h
+  exact ⟨by omega, h2, h3⟩
 
 /-- (2-FO) completed ⇒ saturated for branches WITH quantifier nodes (new-constant / each-constant rules; `NodeConsts`,
     `MaxConsts`): from `Inv` and the quantifier layer `InvQ`.  The limit hypotheses gain "within the constant limit at every
@@ -616,6 +649,35 @@ example : miniS.saturatedB exBranch4 = true :=
   completed_is_saturated_all miniS (by decide) (by decide) exState4 (inv_check_sound miniS _ (by decide))
     (invq_check_sound miniS _ (by decide)) 0 exBranch4 (by decide) (by decide) (tickedQ_of_B miniS _ (by decide))
     (noTargets_of_B (by decide)) (by decide) (by decide) (constWithin_of_B (by decide)) (Or.inl (by decide))
+
+/-! non-vacuity of the termination theorem with access rules: the propositional logic above made modal and reflexive; a run with
+    one Conjunction application and one Reflexive step -/
+def miniPT : LogicData := { miniP with name := "miniPT", modal := true, frameRules := ["Reflexive"] }
+example : miniPT.frameAllowed .serial = false ∧ miniPT.measureOKOnB RuleKey.isTF unitW = true ∧ miniPT.tfRowsOKB = true := by decide
+example : ∃ s, ReachN miniPT argP 2 s := by
+  obtain ⟨b, hb⟩ : ∃ b, b ∈ trunk miniPT argP := ⟨_, List.mem_singleton.2 rfl⟩
+  have h0 := ReachN.init (L := miniPT) (arg := argP) b hb
+  simp only [trunk, List.mem_singleton] at hb
+  subst hb
+  cases hs : stepEv miniPT (SState.init miniPT (trunk miniPT argP).head!.nodes)
+      (.apply (.table ⟨.op2 .conj, false, none⟩) (.rule 0 0 none none)) with
+  | none => exact absurd hs (by decide)
+  | some s1 =>
+    have h1 := ReachN.apply _ _ h0 ⟨by decide, by decide⟩ hs
+    cases hs2 : stepEv miniPT s1 (.apply (.frame .reflexive) (.frame 0 .reflexive 0 0 0)) with
+    | none =>
+      exfalso
+      have : s1 = (stepEv miniPT (SState.init miniPT (trunk miniPT argP).head!.nodes)
+        (.apply (.table ⟨.op2 .conj, false, none⟩) (.rule 0 0 none none))).getD default := by rw [hs]; rfl
+      subst this
+      exact absurd hs2 (by decide)
+    | some s2 =>
+      refine ⟨s2, ReachN.apply _ _ h1 ⟨?_, ?_⟩ hs2⟩
+      · decide
+      · have : s1 = (stepEv miniPT (SState.init miniPT (trunk miniPT argP).head!.nodes)
+          (.apply (.table ⟨.op2 .conj, false, none⟩) (.rule 0 0 none none))).getD default := by rw [hs]; rfl
+        subst this
+        decide
 
 /-- the world-limit hypothesis is not idle: a state beyond the limit in which nothing has a target, no quit flag, and the
     branch is NOT saturated (Reflexive stops at the limit without a flag — known finding k2) -/
